@@ -30,7 +30,8 @@ RULE = (
     "and last 32 bytes and every 7th in between, at most ~256 positions in between for batches above 1800 bytes), (d) with EVERY wrong magic value: each must "
     "raise and never return a batch (read calls are counted, not timed). evaluations = reads executed. Non-trivial = "
     "corruption case; distinct by (batch hash, fault). The main search uses whole-second record timestamps; "
-    "sub-second ones are the region of an open known finding and are probed separately."
+    "sub-second ones are the region of an open known finding and are probed separately. Concurrency: two threads read (and write back) two different batches "
+    "from their own streams under a deterministic scheduler, ONE preemption swept over every executed source line of kio in either thread; every result must equal the sequential one."
 )
 
 
@@ -243,6 +244,74 @@ def check_faults(data: bytes):
     return n, out
 
 
+def concurrency_batches() -> list[bytes]:
+    """two different well-formed batches with several records, headers and null parts (whole-second timestamps)"""
+    out = []
+    for seed in (1, 2):
+        recs = tuple(WireRecord(attributes=0, timestamp_delta=1000 * i, offset_delta=i, key=(b"k%d" % (seed * 10 + i)) if i % 2 else None,
+                                value=bytes([64 + seed]) * (5 + 3 * i + seed), headers=(WireHeader(b"h", bytes([seed, i])),) if i != 1 else ())
+                     for i in range(3))
+        out.append(encode_batch(WireBatch(base_offset=100 * seed, partition_leader_epoch=seed, attributes=0, last_offset_delta=2, base_timestamp=1700000000000 * seed,
+                                          max_timestamp=1700000000000 * seed + 2000, producer_id=seed, producer_epoch=seed, base_sequence=seed, records=recs)))
+    return out
+
+
+def _concurrency_worker(task):
+    rep = Report(prop=ID, level="fault_enumeration", rule=RULE)
+    concurrency_stage(rep, *task)
+    return rep
+
+
+def concurrency_stage(total: Report, start: int = 0, stride: int = 1) -> None:
+    """Two threads read two different batches from their own streams (and write them back); ONE preemption is swept over
+    every source line of kio that the reads execute: a thread's result may not depend on what another thread reads at
+    the same time."""
+    import os
+
+    import kio
+    from kio.records.readers import read_batch
+    from kio.records.writers import write_batch
+
+    from ..sched import sweep_one_preemption
+
+    datas = concurrency_batches()
+
+    def make_programs():
+        def prog(data):
+            def body():
+                rb = read_batch(io.BytesIO(data))
+                buf = io.BytesIO()
+                write_batch(buf, rb)
+                return rb, buf.getvalue()
+            return body
+        return [prog(d) for d in datas]
+
+    want = None
+    n = 0
+    for label, r in sweep_one_preemption(make_programs, os.path.dirname(kio.__file__), stride=stride, start=start):
+        n += 1
+        total.evaluations += 2
+        total.nontrivial.add(case_hash(("concurrent", label)))
+        if r.errors:
+            tid, e = r.errors[0]
+            total.add_failure(Failure(f"concurrent:read-raised:{K.exc_signature(e)}", f"{label}: thread {tid} reading a well-formed batch raised {e!r:.300} "
+                                      f"while another thread read a different batch; preempted at {r.preempted_at}", {"what": "concurrent"}, 1))
+            break
+        if label == "sequential":
+            want = r.results
+            for (rb, back), d in zip(want, datas):
+                if back != d:
+                    total.add_failure(Failure("concurrent:harness", "sequential write-back differs", {"what": "concurrent"}, 1))
+            continue
+        for tid, ((rb, back), (wrb, wback)) in enumerate(zip(r.results, want)):
+            if rb != wrb or back != wback:
+                total.add_failure(Failure("concurrent:read-differs", f"{label}: thread {tid} read {rb!r:.300} - alone it reads {wrb!r:.300}; preempted at {r.preempted_at}",
+                                          {"what": "concurrent"}, 1))
+                return
+    c = total.extra.setdefault("counters", {})
+    c["concurrent_schedules"] = c.get("concurrent_schedules", 0) + n
+
+
 def corpus_batches() -> list[bytes]:
     d = CORPUS_DIR / ID
     return [p.read_bytes() for p in sorted(d.glob("*.bin"))] if d.exists() else []
@@ -335,6 +404,8 @@ def run(ctx: Ctx) -> Report:
         crep.extra["counters"]["corpus_batches"] += 1
         run_batch(crep, crep.extra["counters"], wb, data, probe=sub, with_faults=True)
     total.merge(crep)
+    for rep in pool_map(_concurrency_worker, [(i, 16) for i in range(16)]):
+        total.merge(rep)
     open_ids = open_findings(ID)
     for fid in list(total.known_hits):
         if fid not in open_ids:
@@ -352,6 +423,10 @@ def run(ctx: Ctx) -> Report:
 
 
 def replay(case):
+    if case.get("what") == "concurrent":
+        rep = Report(prop=ID, level="fault_enumeration", rule=RULE)
+        concurrency_stage(rep)
+        return [(f.signature, f.message) for f in rep.failures.values()]
     data = bytes.fromhex(case["batch"])
     wb, _ = decode_batch(data)
     if case.get("what") == "faults":
